@@ -377,12 +377,13 @@ impl ChunkDeserializer {
         &mut self,
         message_to_return: &mut Option<MessagePayload>,
     ) -> Result<ParseStageResult, ChunkDeserializationError> {
-        let mut length = self.current_header.message_length as usize;
+        let message_length = self.current_header.message_length as usize;
         let current_payload_length = self.current_payload_data.len();
-        let remaining_bytes = length.saturating_sub(current_payload_length);
-        if length > self.max_chunk_size as usize {
-            length = min(remaining_bytes, self.max_chunk_size as usize);
-        }
+        let remaining_bytes = message_length.saturating_sub(current_payload_length);
+
+        // A chunk carries what is left of its message, up to the chunk size that is in force now
+        // (which may have changed since the message's first chunk).
+        let length = min(remaining_bytes, self.max_chunk_size as usize);
 
         if self.buffer.len() < length {
             return Ok(ParseStageResult::NotEnoughBytes);
